@@ -220,6 +220,14 @@ pub mod d07_groups {
         Secret(Secret),
         Alpha(Alpha<'a>),
     }
+
+    /// a visible member without commands of its own (the raw catch-all) *between* two members that have some
+    #[derive(CommandGroup)]
+    pub enum Group3<'a> {
+        Alpha(Alpha<'a>),
+        Other(RawCommand<'a>),
+        Beta(Beta),
+    }
 }
 
 pub mod d08_docs {
@@ -303,6 +311,28 @@ pub mod d11_unicode_fields {
             émis: bool,
             /// required positional
             путь: &'a str,
+        },
+    }
+}
+
+pub mod d12_verbatim_names {
+    //! explicit names are used as written: no case folding, no `_` → `-` conversion (that is for generated names only)
+    use embedded_cli::Command;
+
+    #[derive(Command)]
+    pub enum Cmd<'a> {
+        /// Explicit names with capitals and underscores
+        #[command(name = "Set_Mode")]
+        SetMode {
+            /// explicit long in camel case
+            #[arg(long = "noEcho")]
+            no_echo: bool,
+            /// explicit long with an underscore, generated short
+            #[arg(short, long = "dry_run")]
+            dry: Option<&'a str>,
+            /// generated long from a snake-case identifier
+            #[arg(long)]
+            baud_rate: Option<u8>,
         },
     }
 }
